@@ -120,6 +120,14 @@ class BitArray(Bits):
         """Return a copy of the bitstring."""
         return self.__copy__()
 
+    @classmethod
+    def fromstring(cls: TBits, s: str, /) -> TBits:
+        """Create a new bitstring from a formatted string."""
+        x = super().fromstring(s)
+        # The store comes from a cache shared with other bitstrings, so take a copy that can be modified.
+        x._bitstore = x._bitstore._copy()
+        return x
+
     def __setattr__(self, attribute, value) -> None:
         try:
             # First try the ordinary attribute setter
